@@ -63,6 +63,8 @@ def run(F, chk):
     # ---------------- R-C06-c --------------------------------------------------
     rc = chk.rule("R-C06-c", "T12", "the key pairing backends across the two states contains id and address", floor=2)
     n = 0
+    ranks = {}
+    lines_ = {}
     for p in sorted(fns):
         b = F.body(p)
         for bi, si, s in b.stmts():
@@ -80,8 +82,17 @@ def run(F, chk):
                     continue   # the (key, value) pair wrapping the key tuple
                 n += 1
                 ordn = n
-                # keyed by rank among the key-building sites (closure numbers shift when an unrelated closure is added)
-                key = "%s|backend key tuple#%d" % (STATE + "::diff", n - 1)
+                # keyed by rank among the key-building sites of the same kind (in a closure / in a plain body): closure
+                # numbers shift when an unrelated closure is added, and configurations with debug assertions compiled in
+                # have additional sites in the plain bodies
+                kind_ = ("closure" if "{closure" in p else "body") + ("" if (BACKEND, "address") in flds else "!")
+                here_ = b.where(bi, si)
+                if lines_.get(kind_) != here_:           # monomorphised / assertion copies of one source site share a rank
+                    ranks[kind_] = ranks.get(kind_, -1) + 1
+                    lines_[kind_] = here_
+                # (sites that pair by id only are ranked among themselves: these are the ones a finding can name)
+                key = "%s|backend key tuple#%d" % (STATE + "::diff", ranks[kind_]) if kind_ == "closure!" else \
+                      "%s|backend key tuple (%s %s)#%d" % (STATE + "::diff", kind_, p.rsplit("::", 1)[-1], ranks[kind_])
                 if (BACKEND, "address") in flds:
                     rc.ok(key, b.where(bi, si), "key reads backend_id and address")
                 else:
